@@ -34,7 +34,8 @@ ATTRS = ["n_landmarks", "rank", "gp_type", "distances", "nn_distances", "d", "mu
          "initial_value", "transform", "loss_func"]
 CACHEABLES = ["nn_distances", "d", "mu", "ls", "cov_func", "landmarks", "Lp", "L", "initial_value"]
 CORE = ["SX J", "SX N", "PR J", "PR N", "RU", "PC T", "PC F", "FI J T", "FI N T", "FI N F", "PD", "FP J F", "FP N F", "FP N T"]
-EXTRA = ["SX P", "SX O", "PR P", "PR O", "FI P T", "FI O F", "FI J F", "FP P F", "FP O T", "FP Q F", "SX Q", "FP J T"]
+EXTRA = ["SX P", "SX O", "PR P", "PR O", "FI P T", "FI O F", "FI J F", "FP P F", "FP O T", "FP Q F", "SX Q", "FP J T", "SX E", "PR E",
+         "FP E F"]
 
 N = 20
 _DATA = {}
@@ -51,6 +52,9 @@ def data(kind):
             _DATA[(est, "P")] = base.copy()
             _DATA[(est, "J")] = jnp.asarray(base)
             _DATA[(est, "Q")] = base + 1.0
+            near = base.copy()
+            near[3, 0] += 1e-9            # different data, equal within any reasonable closeness tolerance
+            _DATA[(est, "E")] = jnp.asarray(near)
             _DATA[(est, "O")] = jnp.asarray(base + 1.0)
             _DATA[(est, "Y")] = base[:5] + 0.05
         _DATA["LM"] = jnp.asarray(Xn[:6] + 0.05)
@@ -217,7 +221,7 @@ def case_history(ctx, res, p):
     res.count("history:" + ("legal" if all(t[0] == "ok" for t in trace) else "with-refusal" if all(t[0] != "Error" for t in trace) else "with-error"))
     # which data set the estimator got bound to (first successful binding)
     content = None
-    CONTENT = {"J": 0, "P": 0, "O": 1, "Q": 1}
+    CONTENT = {"J": 0, "P": 0, "O": 1, "Q": 1, "E": 2}
     for i, op in enumerate(ops):
         t = op.split()
         if content is None and t[0] in ("SX", "PR", "FI", "FP") and t[1] in CONTENT and trace[i][1][-1] == "1":
@@ -548,6 +552,10 @@ def run(ctx, res):
             k += 1
         res.count("history:seeded", k)
 
+    # nearly identical but different data must be refused like any other foreign data
+    for c in ("D-full", "D-sparse", "T-full", "M-full"):
+        for ops in (["FI J T", "SX E"], ["SX J", "FP E F"], ["PR J", "PR E", "FI N T"]):
+            run_case(ctx, res, {"op": "history", "config": c, "ops": ops})
     fixed_other = [(c, ops) for c in ("T-full", "M-full", "T-sparse")
                    for ops in (["PR J", "RU", "PC F", "PD", "FI N T"], ["RU", "SX J", "PD", "FP N F", "SX O"], ["FP P F", "PD", "FP P F"])
                    if not (quick and c == "M-full" and ops[0] == "RU")]
